@@ -51,4 +51,7 @@ Definition run_uf (bip st : bool) (n : net) (ks : list Z) : tok :=
   let A := auts g in
   L [ tset (tset tN) (orbits_from_mappings (node_ids g) A);
       (* per k: summary(max_count=k); the number of mappings iter(max_count=k) yields; detect_automorphisms(max_count=k) *)
-      tlist (fun k => let '(c, s, m, u) := vf2_bookkeeping (length A) k in L [tnat c; tbool s; tnat m; tnat u; tnat c; tnat c; tbool s]) ks ].
+      tlist (fun k => let '(c, s, m, u) := vf2_bookkeeping (length A) k in L [tnat c; tbool s; tnat m; tnat u; tnat c; tnat c; tbool s]) ks;
+      (* the calls with the DEFAULT max_count: summary() keeps 100, detect_automorphisms() 5000 *)
+      (let '(c, s, m, u) := vf2_bookkeeping (length A) 100 in L [tnat c; tbool s; tnat m; tnat u]);
+      (let '(c, s, m, u) := vf2_bookkeeping (length A) 5000 in L [tnat c; tbool s]) ].
